@@ -149,7 +149,7 @@ fn c04_async_client(case: &Case) {
     let ncallers = pick(&[1u32, 2, 2, 3, 3, 4, 4, 5, 6, 6, 8, 16, 32, 64]);
     let calls_each = if ncallers > 8 { 1 } else { range(1, 2) };
     let with_batch = simkernel::choose(3) == 0;
-    let batch_n = if with_batch { pick(&[1u32, 2, 5, 9, 20]) } else { 0 };
+    let batch_n = if with_batch { pick(&[1u32, 2, 5, 9, 20, 20, 64, 65, 70, 130]) } else { 0 };
     let window = range(1, 6.min(ncallers + batch_n.min(4)).max(1)) as usize;
     let inject_unknown = pick(&[0u32, 0, 20, 50]);
     let inject_dup = pick(&[0u32, 0, 20, 50]);
